@@ -85,7 +85,12 @@ def build(configs):
     if 'ts' in real:
         cmd.append('canary')
     t0 = time.time()
-    p = subprocess.run(cmd, stdout=subprocess.PIPE, stderr=subprocess.STDOUT, text=True)
+    # two checks started at the same time must not run two makes on the same build directory
+    os.makedirs(BUILD, exist_ok=True)
+    import fcntl
+    with open(os.path.join(BUILD, '.lock'), 'w') as lock:
+        fcntl.flock(lock, fcntl.LOCK_EX)
+        p = subprocess.run(cmd, stdout=subprocess.PIPE, stderr=subprocess.STDOUT, text=True)
     if p.returncode != 0:
         sys.stdout.write(p.stdout[-6000:])
         log('check: build failed')
